@@ -253,7 +253,7 @@ def sources_hash(extra_files=()):
 def build_model_driver(name, extract_v, driver_ml, stubs_c=None, packages=("unix",), cclibs=()):
     """Extract `extract_v` (a file under coq/Extract) and link it with driver_ml. Cached on source hash.
     Returns path of the executable."""
-    with Lock("extract-" + name):
+    with Lock("drvbuild-" + name):
         return _build_model_driver(name, extract_v, driver_ml, stubs_c, packages, cclibs)
 
 
